@@ -77,8 +77,17 @@ class Arr:
         return iter(self.v)
 
     def __getitem__(self, i):
+        if isinstance(i, Arr):
+            # boolean mask (numpy fancy indexing): every symbolic mask entry forks
+            if len(i.v) != len(self.v):
+                raise core.emulated(IndexError("boolean index did not match indexed array"))
+            if all(isinstance(m, (bool, SymBool)) for m in i.v):
+                return Arr([x for x, m in zip(self.v, i.v) if (m if isinstance(m, bool) else bool(m))], self.dtype)
+            return Arr([self.v[int(k)] for k in i.v], self.dtype)
+        if isinstance(i, (list, tuple)):
+            return Arr([self.v[int(k)] for k in i], self.dtype)
         if isinstance(i, slice):
-            return Arr(self.v[i])
+            return Arr(self.v[i], self.dtype)
         if isinstance(i, SymInt):
             i = i.__index__()
         return self.v[i]
@@ -250,12 +259,23 @@ class F64(float):
         return self
 
 
+def _truth(x):
+    """numpy truthiness of an array element: non-zero"""
+    if isinstance(x, (bool, SymBool)):
+        return x
+    if x is NAN:
+        return True
+    return x != 0
+
+
 def all_(a):
     if isinstance(a, Arr):
         a = a.v
     elif isinstance(a, (bool, SymBool)):
         return a
-    return core.And(*list(a))
+    elif is_sym(a) or is_number(a):
+        return _truth(a)
+    return core.And(*[_truth(x) for x in a])
 
 
 def any_(a):
@@ -263,7 +283,9 @@ def any_(a):
         a = a.v
     elif isinstance(a, (bool, SymBool)):
         return a
-    return core.Or(*list(a))
+    elif is_sym(a) or is_number(a):
+        return _truth(a)
+    return core.Or(*[_truth(x) for x in a])
 
 
 class LogVal:
